@@ -197,10 +197,43 @@ def pipe_part(R, tier, seed):
     return cov
 
 
+def race_part(R, pid, tier, seed):
+    """C01 / C04 with two goroutines: a user call (approve, abort, close, connection error) runs while a message handler
+    is blocked inside a transport write; the order-independent parts of the property are evaluated on the observations"""
+    d = C.workdir(pid + "race")
+    runs = [(seed, 1500)] if tier == "quick" else [(seed + k, 6000) for k in range(4)]
+    scen, raced, bad, ops = 0, 0, [], {}
+    for s, n in runs:
+        fout = os.path.join(d, "userrace_out.txt")
+        q = C.run([C.HARNESS, "userrace", "-seed", str(s), "-n", str(n), "-out", fout], cwd=d, timeout=C.engine_timeout())
+        if q.returncode != 0:
+            R.violation({"property": pid, "kind": "harness userrace crashed (a panic in a library goroutine ends the process)", "detail": (q.stdout or "")[-3000:]}, "racecrash")
+            continue
+        by = {}
+        for l in open(fout).read().splitlines():
+            w = l.split(" ", 2)
+            if w[0] == "S":
+                scen += 1
+                by[int(w[1])] = w[2]
+                if "(blocked-in-write)" in w[2]:
+                    raced += 1
+                    m = re.search(r"race=(\w+)@", w[2])
+                    if m:
+                        ops[m.group(1)] = ops.get(m.group(1), 0) + 1
+            elif w[0] == "BAD" and w[2].startswith(pid + " "):
+                bad.append({"seed": s, "scenario": int(w[1]), "n": n, "why": w[2], "observations": by.get(int(w[1]), "")})
+    if bad:
+        v = min(bad, key=lambda x: len(x["observations"]))
+        R.violation({"property": pid, "kind": "a user call that ran while a message handler was inside a transport write leaves the connection in a history the property forbids",
+                     "replay": "harness userrace -seed <seed> -n <n>, scenario <scenario>: one real ShipConnection; `observations` is the linearised record (EV:msg@<state>(blocked-in-write) = the handler is held in its write, EV:user:<call> = the call made meanwhile, EV:released = the write returns)",
+                     "count": len(bad), "first": v}, "userrace")
+    return {"race_scenarios": scen, "race_scenarios_with_call_inside_write": raced, "race_user_calls": ops}
+
+
 def check(pid, tier, seed):
     R = C.Result(pid, tier, seed)
     R.assumptions = [
-        "handlers of one connection run one at a time (a user call racing a handler on another goroutine is outside this model; see C20)",
+        "the theorems apply the events of one connection one at a time; a user call racing a message handler on another goroutine is explored by the userrace engine only (calls placed inside a blocked transport write, judged by the order-independent parts of the property), not proved",
         "no message is delivered and no error reported after the data connection is closed (discharged by C13)",
         "user calls reach a connection only while it is registered in the hub (hub routing)",
         "encoding/json turns bytes into the structs the handlers inspect (the harness computes the views with the repository's own structs)",
@@ -281,6 +314,9 @@ def check(pid, tier, seed):
         # silent partitions, restarts)
         from . import twohubs
         hubcov.update(twohubs.th_part(R, pid, tier, seed))
+    racecov = None
+    if pid in ("C01", "C04"):
+        racecov = race_part(R, pid, tier, seed)
     pipecov = None
     if pid == "C06":
         pipecov = pipe_part(R, tier, seed)
@@ -293,6 +329,7 @@ def check(pid, tier, seed):
         "discharged": discharged + (hubcov["discharged"] if hubcov else 0) + (pipecov["discharged"] if pipecov else 0),
         "hub_part": hubcov,
         "end_to_end": pipecov,
+        "user_call_races": racecov,
         "checker_cmd": "cd /verif/lean && lake build ShipVerif  (certificate shards by `decide +kernel`); lake env lean Audit.lean (#print axioms)",
         "trusted_base": C.TRUSTED_BASE,
         "theorems": aud,
